@@ -2,7 +2,12 @@
 CONSTANTS
   Templates <- ThoroughTemplates
   MaxParts = 3
+  PermAll = 4
+  HistShapes <- MCHistShapesSmall
+  HistMutNames <- MCHistMutNamesSmall
+  HistSlots = {"iss"}
+  HistDepth = 2
 INIT Init
 NEXT Next
-INVARIANTS TypeOK Coherent WellFormedClean NoObjectBeforeDER FindingsReported ExportCase
+INVARIANTS TypeOK Coherent WellFormedClean NoObjectBeforeDER FindingsReported UnhandledIsOrderFree OrderIsPermutation ExportCase
 CHECK_DEADLOCK FALSE
